@@ -204,8 +204,10 @@ def run_impl(case):
   cls, exc = _make(case)
   g = {'__name__': 'em', 'gin': gin, 'EXC': exc}
   src = ('def leaf(z=0):\n  raise EXC\n'
-         'def mid(y=None):\n  return leaf()\n'
-         'def top(x=None):\n  return mid()\n'
+         'def helper_mid():\n  return leaf()\n'      # a plain (unconfigured) frame between two configurables
+         'def mid(y=None):\n  return helper_mid()\n'
+         'def helper_top():\n  return mid()\n'
+         'def top(x=None):\n  return helper_top()\n'
          'def consumer(v=None):\n  return v\n')
   exec(src, g)  # pylint: disable=exec-used
   for n in ('leaf', 'mid', 'top', 'consumer'):
@@ -258,6 +260,7 @@ def _describe(e, exc, cls, gin, orig_str):
     d['args'] = {'raises': type(ex).__name__}
   frames = [f.name for f in traceback.extract_tb(e.__traceback__)]
   d['tb_has_leaf'] = 'leaf' in frames
+  d['tb_user_frames'] = [n for n in frames if n in ('top', 'helper_top', 'mid', 'helper_mid', 'leaf')]
   try:
     s = str(e)
     d['str_prefix_ok'] = orig_str is None or s.startswith(orig_str)
@@ -312,6 +315,12 @@ def oracle(case, impl):
       return f'{case["cls"]}: attribute {k} reads {impl["attrs"].get(k)} on the caught exception, {v} on the original'
   if not impl.get('tb_has_leaf'):
     return f'{case["cls"]}: original traceback lost'
+  if case['via'] == 'call':
+    want = {1: ['leaf'], 2: ['mid', 'helper_mid', 'leaf'],
+            3: ['top', 'helper_top', 'mid', 'helper_mid', 'leaf']}[case['depth']]
+    if impl.get('tb_user_frames') != want:
+      return (f'{case["cls"]}: the traceback should lead from the outermost configurable to the raise site through '
+              f'{want}, it shows {impl.get("tb_user_frames")}')
   if not impl.get('str_prefix_ok') or impl.get('str_names_configurable') is not True:
     return f'{case["cls"]}: message not "original + configurable and scope": {impl.get("str_names_configurable")}'
   return None
